@@ -15,6 +15,10 @@ func mkdirAll(d *Dir, subPath string, filemode os.FileMode) (dir *Dir, err error
 
 func mkdirAllNodes(d *Dir, nodesPath []string, filemode os.FileMode) (dir *Dir, err error) {
 	for _, nodeName := range nodesPath {
+		if nodeName == "" || nodeName == "." {
+			// the directory itself, not a child named "." (MkdirAll(".") / MkdirAll(""))
+			continue
+		}
 		if d, err = d.mkdir(nodeName, filemode); err != nil {
 			return nil, err
 		}
